@@ -94,4 +94,6 @@ def stages(tier, rng, only=None):
         cheap = [c for c in algorun.ALL_CONFIGS if c not in COSTLY]
         out.append(ac.stage("grid4x2", PID, lambda: ac.cases(grids.datasets(4, 2), cheap, SCHEMES, flags=(0,),
                                                              namings=["ints"]), _nt))
+    out.append(ac.wide_stage("wide_1000", PID, lambda: ac.wide_cases(rng, 2 if tier == "quick" else 20,
+                                                                      ["BioConsert", "Borda", "Copeland"], complete_only=True)))
     return [s for s in out if not only or s.name == only]
